@@ -64,15 +64,22 @@ class Execution(object):
         pre = self.trace_prefix
         gran = self.granularity
 
+        opcodes = getattr(gran, "opcodes", False)      # a granularity function may ask for bytecode-instruction scheduling points
+
         def local(frame, event, arg):
-            if event == "line":
+            if event == "line" and not opcodes:
                 if gran is None or gran(frame.f_code.co_filename, frame.f_lineno, event):
                     self.point(tid, (frame.f_code.co_filename[len(pre):], frame.f_lineno))
+            elif event == "opcode" and opcodes:
+                if gran(frame.f_code.co_filename, frame.f_lineno, event):
+                    self.point(tid, (frame.f_code.co_filename[len(pre):], frame.f_lineno, frame.f_lasti))
             return local
 
         def glob(frame, event, arg):
             if event == "call" and frame.f_code.co_filename.startswith(pre):
-                if gran is not None and gran(frame.f_code.co_filename, frame.f_lineno, "call"):
+                if opcodes:
+                    frame.f_trace_opcodes = True
+                elif gran is not None and gran(frame.f_code.co_filename, frame.f_lineno, "call"):
                     self.point(tid, (frame.f_code.co_filename[len(pre):], frame.f_lineno))
                 return local
             return None
